@@ -5,7 +5,7 @@ CONSTANTS
   Huge = 268435456
   Gran = 65536
   Slack = 256
-  DirectMap = 262144
+  DirectMap = 1073741824
   EnvK = 2
   EnvC = 4194304
   Ids = {}
